@@ -190,6 +190,7 @@ func c20GenLlama(t *rapid.T) c20Case {
 	c.AddBOS = rapid.IntRange(0, 3).Draw(t, "addbos") > 0
 	c.AddEOS = rapid.IntRange(0, 3).Draw(t, "addeos") == 0
 	c.Parts = c20GenParts(t, "", c20LlamaLiterals())
+	c.SpecialFirst = rapid.IntRange(0, 2).Draw(t, "special_first") == 0
 	c.Long = c20MaybeLong(t)
 	return c
 }
@@ -199,6 +200,7 @@ func c20RunLlama(c c20Case) (c20Info, error) {
 	if err != nil {
 		panic("harness: cannot load llama3.2 vocabulary: " + err.Error())
 	}
+	k.specialFirst = c.SpecialFirst
 	return c20Oracle(k, c.text(), c.AddBOS, c.AddEOS)
 }
 
@@ -295,6 +297,7 @@ func c20GenSynth(t *rapid.T) c20Case {
 	c.AddBOS = rapid.Bool().Draw(t, "addbos")
 	c.AddEOS = rapid.Bool().Draw(t, "addeos")
 	c.Parts = c20GenParts(t, "", c20SynthSpecials)
+	c.SpecialFirst = rapid.IntRange(0, 2).Draw(t, "special_first") == 0
 	c.NMerges = rapid.SampledFrom([]int{0, 0, 2, 5, 10, 20, 40, 80}).Draw(t, "nmerges")
 	if c.NMerges > 0 && rapid.IntRange(0, 2).Draw(t, "hastrain") == 0 {
 		c.Train = c20GenParts(t, "train.", nil)
@@ -311,6 +314,7 @@ func c20RunSynth(c c20Case) (c20Info, error) {
 	v := c20SynthVocab(c)
 	bpe := NewBytePairEncoding(c20Pattern(c.Pre), v)
 	tok := c20NewTok(bpe, v)
+	tok.specialFirst = c.SpecialFirst
 	warmed := false
 	if w, ok := c20EarlierText(c, tok.specials); ok {
 		if _, werr := c20Oracle(tok, w, c.AddBOS, c.AddEOS); werr != nil {
